@@ -1,7 +1,11 @@
 (* C13 - merging library files is a conflict-checked, order-free union.
    Statements only (lemmas in Thermo/Merge_proofs.v).  The update step of the
    model returns the new state together with what was raised, so atomicity
-   is a statement and not an artefact of the model's type. *)
+   is a statement and not an artefact of the model's type.  Order-freeness is
+   proved for the Cp table (acceptance and result) and the valid range;
+   PARTIAL: for the reference values H, S (compared with a relative tolerance,
+   re-evaluated through the merged table) and for whole include trees it is
+   decided by the tree oracle and the correspondence of this check. *)
 From Coq Require Import List NArith Bool Reals Lra.
 From PG Require Import Common.Strs Thermo.Num Thermo.RawData Thermo.Merge Thermo.Merge_proofs.
 Import ListNotations.
@@ -48,6 +52,37 @@ Proof. exact merge_tab_conflict_head. Qed.
 Theorem C13_overwrite_never_rejected : forall self other merged,
   exists t, merge_tab (K:=Rops) self merged other true = Ok t.
 Proof. exact merge_tab_overwrite. Qed.
+
+(* ---------- order-freeness (Cp table and valid range) ----------
+   x, y: the tables two files give for one group (dict keys: no temperature
+   twice); a: what is already there.  Whether both merges are accepted does
+   not depend on the order, and when they are, the merged table is the same
+   map and the merged range the same interval. *)
+Theorem C13_table_acceptance_order_free : forall a x y,
+  NoDup (map fst x) -> NoDup (map fst y) ->
+  ((exists ax axy, merge_tab (K:=Rops) a a x false = Ok ax /\ merge_tab (K:=Rops) ax ax y false = Ok axy) <->
+   (exists ay ayx, merge_tab (K:=Rops) a a y false = Ok ay /\ merge_tab (K:=Rops) ay ay x false = Ok ayx)).
+Proof. exact table_acceptance_order_free. Qed.
+Print Assumptions C13_table_acceptance_order_free.
+
+Theorem C13_table_order_free : forall a x y ax axy ay ayx,
+  NoDup (map fst x) -> NoDup (map fst y) ->
+  merge_tab (K:=Rops) a a x false = Ok ax -> merge_tab (K:=Rops) ax ax y false = Ok axy ->
+  merge_tab (K:=Rops) a a y false = Ok ay -> merge_tab (K:=Rops) ay ay x false = Ok ayx ->
+  forall T, tab_get (K:=Rops) axy T = tab_get (K:=Rops) ayx T.
+Proof. exact table_order_free. Qed.
+Print Assumptions C13_table_order_free.
+
+(* accepted iff the file's data agree with what is there: the exact rejection criterion *)
+Theorem C13_table_accepted_iff_compatible : forall s o, NoDup (map fst o) ->
+  ((exists t, merge_tab (K:=Rops) s s o false = Ok t) <->
+   (forall T v sv, In (T, v) o -> tab_get (K:=Rops) s T = Some sv -> v = sv)).
+Proof. exact merge_tab_ok_iff. Qed.
+
+Theorem C13_range_order_free : forall a x y : option (R * R),
+  range_union (K:=Rops) (range_union (K:=Rops) a x) y = range_union (K:=Rops) (range_union (K:=Rops) a y) x.
+Proof. exact range_union_order_free. Qed.
+Print Assumptions C13_range_order_free.
 
 (* one file naming a group twice (two spellings canonicalise to one name, C19)
    is rejected; distinct names are all accepted *)
